@@ -727,9 +727,13 @@ class World:
                 self.ideal_id[k] = o.id
         elif known != o.id and self.on("C03"):
             if fqn_twin is not None:
+                pair = "|".join(sorted((self.inf(o).okey, fqn_twin.okey)))
+                # the recorded finding names the two pairs of universe origins that share an fqn on the pinned tree;
+                # any OTHER pair of unequal origins doing so is a new violation
+                known_pair = pair in ("c:a:0-5|c:a:0-5@l2", "c:a:0-0|g:a")
                 raise self.viol(
                     "C03.8 id-not-deterministic",
-                    "C03.8:origins-share-fqn",
+                    "C03.8:origins-share-fqn" if known_pair else f"C03.8:origins-share-fqn:{pair}",
                     f"a {cname(o)} with origin {self.inf(o).okey} got id {o.id} (earlier {known}) because a node with the other origin {fqn_twin.okey} of the same fqn is registered",
                 )
             raise self.viol(
@@ -1296,6 +1300,14 @@ class Gen:
             s2 = {"c": "Vals", "p": {"s": "v", fld: v2}, "ch": {}, "o": o}
             if r.random() < 0.5:
                 s1, s2 = s2, s1
+        if r.random() < 0.15:
+            # the near miss differs only in its ORIGIN: the same parts merged in the other order (unequal origins)
+            import copy
+
+            s1 = copy.deepcopy(s1)
+            s1["o"] = r.choice(["m:aa", "m:ba"])
+            s2 = copy.deepcopy(s1)
+            s2["o"] = "m:ba" if s1["o"] == "m:aa" else "m:aa"
         a, b, c = self.out() + "i1", self.out() + "i2", self.out() + "i3"
         if "Vals" in self.cfg["leaf_classes"] and r.random() < 0.25:
             # lookalike history: an ==-equal value of another type is met FIRST, the content is created and dropped, a
